@@ -8,6 +8,7 @@ def run(report, tier):
     empty = ("imap", "list", 0, 1)
     emptyu = ("imap_unordered", "list", 0, 1)
     a, b = ("imap", "list", 2, 1), ("imap_unordered", "list", 2, 2)
+    grid = []
     if tier == "quick":
         plan = [(P.P4(), 2, 0, None), (P.P5(), 2, 0, None), (P.P6(), 1, 0, None)]
         hs = [[a, empty], [empty, a], [a, empty, b], [b, emptyu, a], [empty, empty, a], [a, b, empty]]
@@ -18,14 +19,14 @@ def run(report, tier):
         k = 0
         for x in shapes:
             for y in shapes:
-                plan.append((P.history("HH%d" % k, [x, y]), 2, 0, 100000))
+                grid.append((P.history("HH%d" % k, [x, y]), 2, 0, 100000))
                 k += 1
         for q in (1, 2):
             for w in (1, 2):
                 plan.append((Config("F[q%d,w%d]" % (q, w), kind="factory", quota=q, workers=w, family="F",
                                     calls=[("imap", "list", 2, 1), ("imap_unordered", "list", 3, 2 if q == 1 else 1)]),
                              2 if w == 1 else 1, 0, 400000))
-    run_pool_check(report, "C03", plan)
+    run_pool_check(report, "C03", plan, grid=grid or None)
 
 
 def replay(rec):
